@@ -14,8 +14,9 @@ def build_files(sc, sid):
     # ---- file X
     xdir, xpkg, xname = {
         "sibling": ("p", "p", "b.go"), "test": ("p", "p", "b_test.go"), "xtest": ("p", "p_test", "x_test.go"),
-        "tdpath": ("xtestdatax", "q", "q.go"), "genpath": ("zzgen", "q", "q.go"),
-        "genfile": ("p", "p", "b_zzgen.go"), "genfirst": ("p", "p", "0_zzgen.go"), "gentest": ("p", "p", "b_zzgen_test.go"),
+        "tdpath": ("xtestdatax", "q", "q.go"), "genpath": ("zzGen", "q", "q.go"),
+        "testdecl": ("p", "p", "b_test.go"),
+        "genfile": ("p", "p", "b_zzGen.go"), "genfirst": ("p", "p", "0_zzGen.go"), "gentest": ("p", "p", "b_zzGen_test.go"),
     }[cls]
     x = []
     if s["ign"]:
@@ -39,7 +40,7 @@ def build_files(sc, sid):
          "func base(p *d.T) {", "\tp.X = 1"]
     where["A1"] = ("p/a.go", len(a), "IMM01")
     a += ["}", ""]
-    if s["ann"]:
+    if s["ann"] and cls != "testdecl":
         xt = "q.XT" if cls in ("tdpath", "genpath") else "XT"
         a += ["func viaX(x *%s) {" % xt, "\tx.X = 2"]
         where["A2"] = ("p/a.go", len(a), "IMM01")
@@ -58,6 +59,14 @@ def build_files(sc, sid):
     elif cls == "xtest":
         pkgs.append({"path": "m/p", "name": "p", "files": pfiles})
         pkgs.append({"path": "m/p_test", "name": "p_test", "files": [{"name": "p/x_test.go", "src": xsrc}]})
+    elif cls == "testdecl":
+        # XT / XF are declared in the in-package test file; the external test package of the directory uses them
+        pfiles.append({"name": "p/" + xname, "src": xsrc})
+        pkgs.append({"path": "m/p", "name": "p", "files": pfiles})
+        xt = ["package p_test", "", 'import "m/p"', "", "func useX(x *p.XT) {", "\tx.X = 2"]
+        where["A2t"] = ("p/x_test.go", len(xt), "IMM01")
+        xt += ["\t_ = p.XF(5)", "}", ""]
+        pkgs.append({"path": "m/p_test", "name": "p_test", "files": [{"name": "p/x_test.go", "src": "\n".join(xt) + "\n"}]})
     else:
         pfiles.append({"name": "p/" + xname, "src": xsrc})
         pfiles.sort(key=lambda f: f["name"])
